@@ -391,7 +391,7 @@ package commands
 //@   props C14
 //@   requires @inv gf != nil && s != nil && q != nil && from != nil && to != nil
 //@   ensures result1 ==> stcount(s) == old(stcount(s)) && result3 == nil && result2 != nil && qadds(q) == old(qadds(q)) + 1
-//@   ensures !result1 ==> qadds(q) == old(qadds(q)) && stcount(s) <= old(stcount(s)) + 1
+//@   ensures !result1 ==> qadds(q) == old(qadds(q)) && stcount(s) <= old(stcount(s)) + 1 && stcount(s) >= old(stcount(s))
 //@   ensures !result1 && result3 == nil ==> stcount(s) == old(stcount(s)) + 1
 //@   at call tools.Spool:1 assert stcount(s) == old(stcount(s)) + 1
 //@   at call (*lfs.GitFilter).Smudge:1 assert stcount(s) == old(stcount(s)) + 1
